@@ -62,9 +62,10 @@ MAX_ELEMS = 40000          # arrays above this size are not serialised (counted)
 MAX_CALLS = 8              # recorded calls per kernel per case (all are counted)
 
 # kernel codes of Model/EntryC19.v
-K_TLI, K_SKEL, K_IL, K_RECON, K_PROP, K_ARR = 1, 2, 3, 4, 5, 6
+K_TLI, K_SKEL, K_IL, K_RECON, K_PROP, K_ARR, K_ACC, K_TRACE, K_FILL = 1, 2, 3, 4, 5, 6, 7, 8, 9
 MONITORED = {K_TLI: "table_lookup_index", K_SKEL: "skeletonize_loop", K_IL: "index_lookup",
-             K_RECON: "grey_reconstruction_loop", K_PROP: "propagate", K_ARR: "augmenting_row_reduction"}
+             K_RECON: "grey_reconstruction_loop", K_PROP: "propagate", K_ARR: "augmenting_row_reduction", K_ACC: "_all_connected_components",
+             K_TRACE: "trace_outlines", K_FILL: "fill_labeled_holes_loop"}
 
 
 # =========================================================================================== spy
@@ -216,6 +217,64 @@ def _mk_spies(real):
                 _unmon("augmenting_row_reduction", spy_error=repr(e))
         return real["augmenting_row_reduction"](n, ii, jj, idx, count, x, y, u, v, c, *a, **kw)
     spies["augmenting_row_reduction"] = augmenting_row_reduction
+
+    def _all_connected_components(i_a, j_a, indexes_a, counts_a, label_a, *a, **kw):
+        if _Rec.calls is not None and _note("_all_connected_components"):
+            try:
+                if _small(j_a, indexes_a, counts_a):
+                    n = int(np.asarray(counts_a).shape[0])
+                    pre = [K_ACC, n, _ints(j_a), _ints(indexes_a), _ints(counts_a), int(np.asarray(label_a).size)]
+                    run = None
+                    if np.asarray(j_a).size <= 200:
+                        run = [K_ACC, n, _ints(j_a), _ints(indexes_a), _ints(counts_a), 3 * int(np.asarray(j_a).size) + 3 * n + 3]
+                    _rec(K_ACC, "_all_connected_components", pre, run)
+                else:
+                    _unmon("_all_connected_components", too_large=True)
+            except Exception as e:      # noqa
+                _unmon("_all_connected_components", spy_error=repr(e))
+        return real["_all_connected_components"](i_a, j_a, indexes_a, counts_a, label_a, *a, **kw)
+    spies["_all_connected_components"] = _all_connected_components
+
+    def trace_outlines(labels, firsts, stride_table, new_direction_table, output, output_count, *a, **kw):
+        if _Rec.calls is not None and _note("trace_outlines"):
+            try:
+                if _small(labels, firsts):
+                    pre = [K_TRACE, _ints(labels), _ints(firsts), _ints(stride_table), int(np.asarray(output_count).size),
+                           int(np.asarray(new_direction_table).size)]
+                    run = None
+                    if np.asarray(labels).size <= 300:
+                        run = [K_TRACE, _ints(labels), _ints(firsts), _ints(stride_table), _ints(new_direction_table),
+                               int(np.asarray(output).size), int(np.asarray(output_count).size),
+                               2 * int(np.asarray(labels).size) + 2]
+                    _rec(K_TRACE, "trace_outlines", pre, run)
+                else:
+                    _unmon("trace_outlines", too_large=True)
+            except Exception as e:      # noqa
+                _unmon("trace_outlines", spy_error=repr(e))
+        return real["trace_outlines"](labels, firsts, stride_table, new_direction_table, output, output_count, *a, **kw)
+    spies["trace_outlines"] = trace_outlines
+
+    def fill_labeled_holes_loop(i, j, idx, i_count, is_not_hole, adjacent_non_hole, to_do, lcount, to_do_count, *a, **kw):
+        if _Rec.calls is not None and _note("fill_labeled_holes_loop"):
+            try:
+                if _small(j, idx, i_count, is_not_hole, to_do):
+                    n = int(np.asarray(is_not_hole).size)
+                    cap = int(np.asarray(to_do).size)
+                    td = _ints(np.asarray(to_do)[: int(to_do_count)])
+                    pre = [K_FILL, n, cap, _ints(j), _ints(idx), _ints(i_count), _ints(np.asarray(is_not_hole) != 0),
+                           _ints(adjacent_non_hole), td]
+                    run = None
+                    if np.asarray(j).size <= 200 and n <= 60:
+                        run = [K_FILL, 2 * int(np.asarray(j).size) + 2 * n + 4, cap, int(lcount), _ints(j), _ints(idx),
+                               _ints(i_count), _ints(np.asarray(is_not_hole) != 0), _ints(adjacent_non_hole), td[::-1]]
+                    _rec(K_FILL, "fill_labeled_holes_loop", pre, run)
+                else:
+                    _unmon("fill_labeled_holes_loop", too_large=True)
+            except Exception as e:      # noqa
+                _unmon("fill_labeled_holes_loop", spy_error=repr(e))
+        return real["fill_labeled_holes_loop"](i, j, idx, i_count, is_not_hole, adjacent_non_hole, to_do, lcount,
+                                               to_do_count, *a, **kw)
+    spies["fill_labeled_holes_loop"] = fill_labeled_holes_loop
 
     def passthrough(name):
         def spy(*a, **kw):
